@@ -618,9 +618,28 @@ def g_notadir(s):
     return any(dl(s.disk, p[:i]) is not None and dl(s.disk, p[:i])[0] == "f" for p in s.index for i in range(1, len(p)))
 
 
+def g_pairs(s, modified_only):
+    """contents dulwich's rename/copy detection would pair: an added (or changed-to) non-directory entry and a
+    source file (deleted, kind-changed or modified; only modified ones when modified_only) with the same text"""
+    b, v = git_basis_tree(s), git_snapshot(s)
+    adds, srcs = [], []
+    for p in set(b) | set(v):
+        x, y = b.get(p), v.get(p)
+        if x == y:
+            continue
+        if y is not None and y[0] != "d" and (x is None or x[0] != y[0]):
+            adds.append(y[1])
+        if x is not None and x[0] == "f":
+            if not modified_only or (y is not None and y[0] == "f"):
+                srcs.append(x[1])
+    return any(c in srcs for c in adds)
+
+
 def git_commit(s):
     if g_notadir(s):
         return "NotADirectoryError"
+    if g_pairs(s, True):
+        return "Unmodelled"      # candidate finding C09-git-commit-copy: commit unversions the copied-from file
     v = git_snapshot(s)
     new = {p: e for p, e in v.items() if e[0] == "f"}
     old = s.basis
@@ -641,9 +660,7 @@ def git_revert(s):
         return "NotADirectoryError"
     # guard: nothing dulwich's rename/copy detection could pair up
     rows = git_status(s)
-    add_f = any(r[0] is None and r[6] != "directory" for r in rows)
-    src_f = any(r[0] is not None and r[5] == "file" for r in rows)
-    if add_f and src_f:
+    if g_pairs(s, False):
         return "Unmodelled"
     for r in rows:
         if r[0] is None and r[6] == "directory":
